@@ -263,6 +263,10 @@ func init() {
 				}
 			}
 			managed = append(managed, &killCase{proto, "fast", "cmd", "cleanup"}, &killCase{proto, "ignores", "cmd", "cleanup"})
+			if proto != "grpcmux" {
+				// managed clients of every launch method are ended by CleanupClients
+				managed = append(managed, &killCase{proto, "fast", "reattach", "cleanup"}, &killCase{proto, "fast", "runner", "cleanup"})
+			}
 		}
 		// the graceful path is a race on net/rpc (reply to Control.Quit vs the plugin's exit): repeat it
 		reps := 12
